@@ -544,9 +544,10 @@ func ToRat(e *Expr) RatFunc {
 
 // LinCmp is the canonical comparison  D op 0  with op in {>=, >, ==, !=}.
 type LinCmp struct {
-	D  RatFunc
-	Op string
-	OK bool
+	D   RatFunc
+	Op  string
+	OK  bool
+	Int bool // both operands are integers (ints, durations): D > 0 is the same statement as D-1 >= 0
 }
 
 // CanonCmp normalises a boolean expression that is a (possibly negated) comparison.
@@ -564,43 +565,73 @@ func CanonCmp(e *Expr) (LinCmp, bool) {
 	var c LinCmp
 	switch o {
 	case ">=":
-		c = LinCmp{l.Add(r, -1), ">=", true}
+		c = LinCmp{l.Add(r, -1), ">=", true, false}
 	case ">":
-		c = LinCmp{l.Add(r, -1), ">", true}
+		c = LinCmp{l.Add(r, -1), ">", true, false}
 	case "<=":
-		c = LinCmp{r.Add(l, -1), ">=", true}
+		c = LinCmp{r.Add(l, -1), ">=", true, false}
 	case "<":
-		c = LinCmp{r.Add(l, -1), ">", true}
+		c = LinCmp{r.Add(l, -1), ">", true, false}
 	case "==":
-		c = LinCmp{l.Add(r, -1), "==", true}
+		c = LinCmp{l.Add(r, -1), "==", true, false}
 	case "!=":
-		c = LinCmp{l.Add(r, -1), "!=", true}
+		c = LinCmp{l.Add(r, -1), "!=", true, false}
 	default:
 		return LinCmp{}, false
 	}
 	c.D = c.D.norm()
+	c.Int = isIntegerType(e.Args[0].Typ) && isIntegerType(e.Args[1].Typ)
 	if neg {
 		c = c.Negate()
 	}
 	return c, true
 }
 
+func isIntegerType(t types.Type) bool {
+	if t == nil {
+		return false
+	}
+	b, ok := t.Underlying().(*types.Basic)
+	return ok && b.Info()&types.IsInteger != 0
+}
+
+// Strict / NonStrict: the same integer statement written with > / >= (x >= 1 is x > 0). Non-integer
+// comparisons are returned unchanged.
+func (c LinCmp) Strict() LinCmp {
+	if c.Int && c.Op == ">=" {
+		return LinCmp{c.D.Add(rfConst(big.NewRat(1, 1)), 1).norm(), ">", true, true}
+	}
+	return c
+}
+
+func (c LinCmp) NonStrict() LinCmp {
+	if c.Int && c.Op == ">" {
+		return LinCmp{c.D.Add(rfConst(big.NewRat(1, 1)), -1).norm(), ">=", true, true}
+	}
+	return c
+}
+
 func (c LinCmp) Negate() LinCmp {
 	zero := rfConst(new(big.Rat))
 	switch c.Op {
 	case ">=": // !(D>=0) = -D > 0
-		return LinCmp{zero.Add(c.D, -1).norm(), ">", true}
+		return LinCmp{zero.Add(c.D, -1).norm(), ">", true, c.Int}
 	case ">":
-		return LinCmp{zero.Add(c.D, -1).norm(), ">=", true}
+		return LinCmp{zero.Add(c.D, -1).norm(), ">=", true, c.Int}
 	case "==":
-		return LinCmp{c.D, "!=", true}
+		return LinCmp{c.D, "!=", true, c.Int}
 	case "!=":
-		return LinCmp{c.D, "==", true}
+		return LinCmp{c.D, "==", true, c.Int}
 	}
 	return c
 }
 
 func (c LinCmp) Equal(o LinCmp) bool {
+	if (c.Int || o.Int) && c.Op != o.Op && (c.Op == ">" || c.Op == ">=") && (o.Op == ">" || o.Op == ">=") {
+		// integers: compare both in the >= form
+		c.Int, o.Int = true, true
+		c, o = c.NonStrict(), o.NonStrict()
+	}
 	if c.Op != o.Op {
 		return false
 	}
@@ -623,6 +654,10 @@ func (c LinCmp) Implies(o LinCmp) bool {
 		return true
 	}
 	if (c.Op == ">" || c.Op == ">=") && (o.Op == ">" || o.Op == ">=") {
+		if c.Int || o.Int {
+			c.Int, o.Int = true, true
+			c, o = c.NonStrict(), o.NonStrict()
+		}
 		diff := c.D.Add(o.D, -1).norm() // c.D - o.D  must be a constant <= 0 (c.D = o.D + k, c holds ⇒ o.D >= -k ...)
 		if k, ok := diff.P.isConst(); ok {
 			if _, okq := diff.Q.isConst(); okq {
@@ -666,7 +701,7 @@ func ParseLin(spec, opr string) LinCmp {
 			sign = 1
 		}
 	}
-	return LinCmp{rf.norm(), opr, true}
+	return LinCmp{rf.norm(), opr, true, false}
 }
 
 // ---- dimensions ----
